@@ -152,9 +152,8 @@ func RunMarked(msgs []mon.Msg, build func(source execution.Node) (execution.Node
 	}
 	err = node.Run(mon.Ctx(),
 		func(ctx execution.ProduceContext, record execution.Record) error {
-			vals := make([]octosql.Value, len(record.Values))
-			copy(vals, record.Values)
-			record.Values = vals
+			// snapshot at emission time, list payloads included: a retraction is judged against what was really sent
+			record.Values = mon.DeepCopyValues(record.Values)
 			outs = append(outs, mon.Out{Rec: record})
 			return nil
 		},
